@@ -91,3 +91,9 @@ Previous.vos Previous.vok Previous.required_vos: Previous.v Collection.vos Store
 PreviousFacts.vo PreviousFacts.glob PreviousFacts.v.beautified PreviousFacts.required_vo: PreviousFacts.v Bytes.vo Segment.vo Stack.vo StackFacts.vo Collection.vo CollectionFacts.vo Store.vo StoreFacts.vo Previous.vo
 PreviousFacts.vio: PreviousFacts.v Bytes.vio Segment.vio Stack.vio StackFacts.vio Collection.vio CollectionFacts.vio Store.vio StoreFacts.vio Previous.vio
 PreviousFacts.vos PreviousFacts.vok PreviousFacts.required_vos: PreviousFacts.v Bytes.vos Segment.vos Stack.vos StackFacts.vos Collection.vos CollectionFacts.vos Store.vos StoreFacts.vos Previous.vos
+Faults.vo Faults.glob Faults.v.beautified Faults.required_vo: Faults.v 
+Faults.vio: Faults.v 
+Faults.vos Faults.vok Faults.required_vos: Faults.v 
+FaultsFacts.vo FaultsFacts.glob FaultsFacts.v.beautified FaultsFacts.required_vo: FaultsFacts.v Faults.vo
+FaultsFacts.vio: FaultsFacts.v Faults.vio
+FaultsFacts.vos FaultsFacts.vok FaultsFacts.required_vos: FaultsFacts.v Faults.vos
